@@ -141,11 +141,12 @@ def handleParse (s : Sess) (i : Nat) (op impl : Json) : Sess × Json :=
           | _, _ => []
         let orc := orc ++ c07 a
         let morc := morc ++ c07 m
-        let classes0 := Findings.outputClasses c a.pkts ++ (match sv, (s.defs.lookup p).getD (some {}) with
-            | some v, some d0 => (match (fromJson? ((op.getObjVal? "msgs").toOption.getD Json.null) : Except String (List Spec.Msg)) with
-              | .ok msgs => Findings.inputClasses c d0 msgs ++ Findings.inputClasses c v.defs msgs
+        let classes0 := Findings.outputClasses c a.pkts ++
+            (match (fromJson? ((op.getObjVal? "msgs").toOption.getD Json.null) : Except String (List Spec.Msg)) with
+              | .ok msgs =>
+                let d0 : Spec.Defs := ((s.defs.lookup p).getD (some {})).getD {}
+                Findings.inputClasses c d0 msgs ++ (match sv with | some v => Findings.inputClasses c v.defs msgs | none => [])
               | .error _ => [])
-            | _, _ => [])
         let stickyNow := ((s.sticky.lookup p).getD []) ++ classes0.filter (fun x => x == "ipfix-multi-template-set")
         let classes := (classes0 ++ stickyNow).eraseDups
         let call : Call := { buf := buf, impl := a, model := m, implBefore := before }
